@@ -709,13 +709,27 @@ class HttpRequestParser(HttpParser[RawRequestMessage]):
         else:
             # absolute-form for proxy maybe,
             # https://datatracker.ietf.org/doc/html/rfc7230#section-5.3.2
-            url = URL(path, encoded=True)
+            try:
+                url = URL(path, encoded=True)
+            except (ValueError, IndexError):  # IndexError: yarl on "http://[]@"
+                raise InvalidURLError(
+                    path.encode(errors="surrogateescape").decode("latin1")
+                ) from None
             if not url.absolute:
                 # authority-form is only allowed with CONNECT
                 # https://www.rfc-editor.org/info/rfc9112/#section-3.2.3-1
                 raise InvalidURLError(
                     path.encode(errors="surrogateescape").decode("latin1")
                 )
+
+        # yarl splits and decodes the authority lazily; an invalid host or
+        # port must be rejected here, not blow up in whoever reads it first.
+        try:
+            url.host, url.port
+        except ValueError:
+            raise InvalidURLError(
+                path.encode(errors="surrogateescape").decode("latin1")
+            ) from None
 
         # read headers
         (
